@@ -37,6 +37,27 @@ fn lmin(x: LTriple) -> Result<Option<LTriple>, String> {
     guard_total(|| likelysubtags::minimize(x.0, x.1, x.2))
 }
 
+/// The method (`LanguageIdentifier::maximize` / `minimize`, the API users call) against the free
+/// function on the same triple: same "changed" flag, same resulting fields.  Runs on EVERY triple
+/// of the universe (the in-place sweeps below add variants and extensions on a sub-universe).
+#[inline]
+fn check_method(u: &Universe, t: Triple, x: LTriple, free: Option<LTriple>, maxi: bool, sub: &'static str, l: &mut Local, coll: &Collector) {
+    let mut li = LanguageIdentifier::from_parts(x.0, x.1, x.2, &[]);
+    let r = guard_total(|| if maxi { li.maximize() } else { li.minimize() });
+    let changed = match r {
+        Ok(c) => c,
+        Err(p) => {
+            tviol(coll, l, sub, format!("LanguageIdentifier::{} panics: {}", if maxi { "maximize" } else { "minimize" }, p), u, t, "a value".into(), p);
+            return;
+        }
+    };
+    let want = free.unwrap_or(x);
+    if changed != free.is_some() || (li.language, li.script, li.region) != want {
+        tviol(coll, l, sub, format!("LanguageIdentifier::{0}() disagrees with likelysubtags::{0}", if maxi { "maximize" } else { "minimize" }), u, t,
+              format!("{} {}", free.is_some(), Universe::show_lib(&Some(want))), format!("{} {}", changed, li));
+    }
+}
+
 // ------------------------------------------------------------------------------------------
 // C06
 // ------------------------------------------------------------------------------------------
@@ -50,6 +71,7 @@ pub fn check_c06_triple(u: &Universe, t: Triple, l: &mut Local, coll: &Collector
             return;
         }
     };
+    check_method(u, t, x, out, true, "c06.inplace", l, coll);
     let exp = u.lk.ref_maximize(t);
     let exp_lib = exp.map(|e| u.lib(e));
     l.counters[out.is_some() as usize] += 1;
@@ -208,6 +230,7 @@ pub fn check_c07_triple(u: &Universe, t: Triple, l: &mut Local, coll: &Collector
             return;
         }
     };
+    check_method(u, t, x, out, true, "c07.bool", l, coll);
     l.counters[out.is_some() as usize] += 1;
     if let Some(r) = out {
         l.nontrivial += 1;
@@ -338,6 +361,7 @@ pub fn check_c08_triple(u: &Universe, t: Triple, l: &mut Local, coll: &Collector
             return;
         }
     };
+    check_method(u, t, x, m, false, "c08.bool", l, coll);
     let full = |y: LTriple| -> LTriple { likelysubtags::maximize(y.0, y.1, y.2).unwrap_or(y) };
     let maxx = full(x);
     l.counters[m.is_some() as usize] += 1;
@@ -493,33 +517,33 @@ pub fn run_c08(ctx: &Ctx) -> Report {
 
 pub fn replay(ctx: &Ctx, sub: &'static str, text: &str, coll: &Collector) {
     let Some(name) = text.strip_prefix("triple:") else { return };
-    let u = Universe::new(&ctx.repo);
+    let u = super::universe::shared(&ctx.repo);
     let Some(t) = u.lk.ids_of(name) else { return };
     let mut l = Local::new();
     match &sub[..3] {
-        "c01" => super::values::check_c01_triple(&u, t, &mut l, coll),
+        "c01" => super::values::check_c01_triple(u, t, &mut l, coll),
         "c06" => {
-            check_c06_triple(&u, t, &mut l, coll);
-            check_c06_inplace(&u, t, &mut l, coll);
+            check_c06_triple(u, t, &mut l, coll);
+            check_c06_inplace(u, t, &mut l, coll);
             for (k, v) in &u.lk.entries {
                 if k != "und" && u.lk.ids_of(k) == Some(t) {
-                    check_c06_entry(&u, k, v, &l, coll);
+                    check_c06_entry(u, k, v, &l, coll);
                 }
             }
         }
         "c07" => {
-            check_c07_triple(&u, t, &mut l, coll);
+            check_c07_triple(u, t, &mut l, coll);
             for vi in 0..variants_menu().len() {
                 for ei in 0..ext_menu().len() {
-                    check_c07_inplace(&u, t, &variants_menu()[vi], &ext_menu()[ei], &mut l, coll);
+                    check_c07_inplace(u, t, &variants_menu()[vi], &ext_menu()[ei], &mut l, coll);
                 }
             }
         }
         "c08" => {
-            check_c08_triple(&u, t, &mut l, coll);
+            check_c08_triple(u, t, &mut l, coll);
             for vi in 0..variants_menu().len() {
                 for ei in 0..ext_menu().len() {
-                    check_c08_inplace(&u, t, &variants_menu()[vi], &ext_menu()[ei], &mut l, coll);
+                    check_c08_inplace(u, t, &variants_menu()[vi], &ext_menu()[ei], &mut l, coll);
                 }
             }
         }
